@@ -33,6 +33,18 @@ def halvings(w, h, levels):
 def oracle(case, obs):
     if obs["init"] is None:
         return None
+    if case.get("stream") == "decimal":
+        # decimal coordinates: decisions are discrete, so consistency must hold exactly; shapes are not judged
+        for t, m, ch in zip(case["ths"], obs["mbr"], obs["refine_changes"]):
+            if isinstance(ch, str):
+                return f"refine({t}) failed ({ch}) on a valid allocation with decimal coordinates"
+            if m != ch:
+                return (f"must_be_refined({t}) = {m} but refining at that threshold "
+                        f"{'changes' if ch else 'does not change'} the allocation")
+        for o, st in zip(case["ops"], obs["steps"]):
+            if st["after"] is None:
+                return f"{o[0]} failed ({st.get('err')}) on a valid allocation with decimal coordinates"
+        return None
     cells0 = obs["init"]["cells"]
     for t, m, ch in zip(case["ths"], obs["mbr"], obs["refine_changes"]):
         if isinstance(ch, str):
